@@ -54,7 +54,7 @@ func cliQueries(c *cliEnv, shim *rpcShim, e *execState, bo *blockObs, pairs map[
 		arr, _ := doc["auction"].([]interface{})
 		for _, x := range arr {
 			m, _ := x.(map[string]interface{})
-			ba, _ := m["base_auction"].(map[string]interface{})
+			ba := baseAuctionOf(m)
 			id := "0"
 			if v, ok := ba["id"]; ok {
 				id = fmt.Sprint(v)
@@ -94,7 +94,7 @@ func cliQueries(c *cliEnv, shim *rpcShim, e *execState, bo *blockObs, pairs map[
 			fail("get-auction", []string{"get-auction", aid}, r)
 		} else {
 			m, _ := doc["auction"].(map[string]interface{})
-			ba, _ := m["base_auction"].(map[string]interface{})
+			ba := baseAuctionOf(m)
 			if ba == nil || fmt.Sprint(ba["status"]) != statusNames[a.Status] || fmt.Sprint(ba["auctioneer"]) != a.Auctioneer {
 				addV("cli.query.value", "get-auction", fmt.Sprintf("get-auction %s displays %v, stored status %s auctioneer %s", aid, ba, statusNames[a.Status], a.Auctioneer), []string{"query", "fundraising", "get-auction", aid})
 			}
@@ -126,7 +126,7 @@ func cliQueries(c *cliEnv, shim *rpcShim, e *execState, bo *blockObs, pairs map[
 				fail("get-bid", []string{"get-bid", aid, fmt.Sprint(b.ID)}, r)
 			} else {
 				m, _ := doc["bid"].(map[string]interface{})
-				if m == nil || fmt.Sprint(m["bidder"]) != b.Bidder || fmt.Sprint(m["price"]) != b.Price {
+				if m == nil || fmt.Sprint(m["bidder"]) != b.Bidder || !sameDecDisplay(fmt.Sprint(m["price"]), b.Price) {
 					addV("cli.query.value", "get-bid", fmt.Sprintf("get-bid %s %d displays %v, stored bidder %s price %s", aid, b.ID, m, b.Bidder, b.Price), []string{"query", "fundraising", "get-bid", aid, fmt.Sprint(b.ID)})
 				}
 			}
@@ -198,4 +198,28 @@ func orZero(v interface{}) string {
 		return "0"
 	}
 	return fmt.Sprint(v)
+}
+
+// baseAuctionOf: the base_auction object of a displayed auction. AutoCLI prints an Any either as
+// {"@type":..., fields...} or, in amino JSON, as {"type":..., "value":{fields...}}.
+func baseAuctionOf(m map[string]interface{}) map[string]interface{} {
+	if m == nil {
+		return nil
+	}
+	if v, ok := m["value"].(map[string]interface{}); ok {
+		m = v
+	}
+	ba, _ := m["base_auction"].(map[string]interface{})
+	return ba
+}
+
+// sameDecDisplay: SDK 0.50 AutoCLI shows cosmos.Dec values in their 18-decimal integer encoding
+// ("2500000000000000000" for 2.5); both that form and the decimal form are accepted as a display
+// of the stored value.
+func sameDecDisplay(shown, stored string) bool {
+	if shown == stored {
+		return true
+	}
+	d, ok := parseDec(stored)
+	return ok && d.String() == shown
 }
